@@ -306,7 +306,7 @@ class Headers:
     async def repair(self, start_height=0):
         previous_header_hash = fail = None
         batch_size = 36
-        for height in range(start_height, self.height, batch_size):
+        for height in range(start_height, self.height + 1, batch_size):
             headers = self._read(height, batch_size)
             if len(headers) % self.header_size != 0:
                 headers = headers[:(len(headers) // self.header_size) * self.header_size]
@@ -329,6 +329,18 @@ class Headers:
                     self._size = self.io.seek(0, os.SEEK_END) // self.header_size
                     return
                 previous_header_hash = header_hash
+        # no stored header links to the last one, so the link check above cannot notice damage that
+        # is confined to it: validate the tip on its own (link, difficulty bits and proof of work)
+        tip = self.height
+        if tip >= max(start_height, 1):
+            try:
+                await self.validate_chunk(tip, self._read(tip))
+            except InvalidHeader:
+                log.warning("Header file corrupted at height %s, truncating it.", tip)
+                self.io.seek(tip * self.header_size, os.SEEK_SET)
+                self.io.truncate()
+                self.io.flush()
+                self._size = self.io.seek(0, os.SEEK_END) // self.header_size
 
     @classmethod
     def get_proof_of_work(cls, header_hash: bytes):
